@@ -47,6 +47,11 @@ fn gen(t: Tier, _seed: u64, emit: &mut dyn FnMut(Case)) {
                 emit(Case::Long { cid, n, s });
             }
         }
+        for n in huge_lengths(cid.bits()) {
+            for s in [0usize, 1] {
+                emit(Case::Long { cid, n, s });
+            }
+        }
     }
 }
 
@@ -251,7 +256,7 @@ fn run_g<A: Sx>(c: &Case, out: &mut Out) {
     match c {
         Case::Sym { i, .. } => sym_case::<A>(*i, out),
         Case::Long { n, s, .. } => {
-            for variant in 0..2 {
+            for variant in 0..(if *n > 1100 { 1 } else { 2 }) {
                 seq_one::<A>(&sp, &syms::<A>(&bg(*n, m, 310 + variant, out.seed)), *s, out);
             }
         }
